@@ -180,6 +180,7 @@ func (v *fnVC) instr(b *ssa.BasicBlock, in ssa.Instruction, st *State) {
 				alt := st.clone()
 				v.call(d.instr, alt)
 				merged := v.e.newState()
+				merged.blk = b.Index
 				merged.parents = []*State{alt, st.clone()}
 				merged.conds = []*T{d.reach, tNot(d.reach)}
 				names := map[string]*Sort{}
